@@ -106,7 +106,7 @@ class Leaf:
 
 class Region:
     def __init__(self, body, start, stops=None, marks=None, presets=None, call_models=None, max_paths=50000,
-                 atom_namer=None, entry_env=None, local_names=None, force_bool_return=False):
+                 atom_namer=None, entry_env=None, local_names=None, force_bool_return=False, observe=None):
         """start: block index.  stops: {bb: label} blocks ending a path when *entered*.
         marks: {call pattern: label} calls recorded on the path.  presets: {local: value}."""
         self.b = body
@@ -122,6 +122,7 @@ class Region:
         self.entry_env = entry_env or {}
         self.local_names = local_names or {}
         self.force_bool_return = force_bool_return
+        self.observe = observe or {}
 
     # ---- naming of unknowns ---------------------------------------------------------------
     def place_name(self, pl):
@@ -581,7 +582,7 @@ class Region:
                 if steps > 4000:
                     raise E3Error("path too long in %s" % b.id)
                 if bb in self.stops and (bb != self.start or len(trace) > 1):
-                    self._leaf(cond, ("stop", self.stops[bb]), None, marks, trace)
+                    self._leaf(cond, ("stop", self.stops[bb]), None, marks, trace, env)
                     break
                 bl = b.blocks[bb]
                 for st in bl["s"]:
@@ -633,7 +634,7 @@ class Region:
                 cont = None
                 for (x, c2) in nxt:
                     if x in trace and not (x in self.stops):
-                        self._leaf(c2, ("loop", x), None, marks, trace + (x,))
+                        self._leaf(c2, ("loop", x), None, marks, trace + (x,), env)
                         continue
                     if cont is None:
                         cont = (x, c2)
@@ -676,7 +677,13 @@ class Region:
         env[key] = v
 
     def _leaf(self, cond, outcome, ret, marks, trace, env=None):
-        self.leaves.append(Leaf(dict(cond), outcome, ret, marks, trace))
+        lf = Leaf(dict(cond), outcome, ret, marks, trace)
+        lf.obs = {}
+        if env is not None:
+            for nm, key in self.observe.items():
+                v = env.get(key)
+                lf.obs[nm] = None if v is None else self.deref(env, v)
+        self.leaves.append(lf)
 
 
 def strip_type(ty):
